@@ -21,6 +21,7 @@ func init() {
 			"X4 skipping preflights is guarded by Preflight && SkipPreflight and skip() has no other callers; X5 a node's list of disabling conditions, which children and siblings share, is never extended in place (may-alias analysis: no append whose first operand can share the backing array of a CallGraphStage.Disable); O1 (shared with C02) bounds where jobs can be submitted. " +
 			"X6 a fork-id part shared with sibling forks of an outer run-time dimension is resolved only through the join of the caller's part and a private copy taken on an edge that compares len(node.forks) with this fork's index. " +
 			"X3 also: every path of Fork.disabled to an 'enabled' verdict has passed the loop that examines the fork's ranges for zero length. " +
+			"X8 every creator of a fork's chunk objects (first run, re-attach) pads the chunk directory names to a width computed from the same expression. " +
 			"NOT decided: one fork per element/key (run-time counts), liveness (no job skipped).",
 		Assumptions: commonAssumptions,
 	}
@@ -34,6 +35,7 @@ func runC03(c *an.Ctx) {
 	ruleX4(c)
 	ruleX5(c)
 	ruleX6(c)
+	ruleChunkWidth(c, "X8")
 }
 
 // ---------------------------------------------------------------------------
